@@ -1080,7 +1080,11 @@ class AQUA:
             return q_prime.to_array()
         lx, ly, _ = q_prime.to_DCM().T @ (mag/m_norm)       # World frame magnetic vector (eq. 54)
         Gamma = lx**2 + ly**2                               # (eq. 28)
-        q_mag = np.array([np.sqrt(Gamma+lx*np.sqrt(Gamma))/np.sqrt(2*Gamma), 0.0, 0.0, ly/np.sqrt(2*(Gamma+lx*np.sqrt(Gamma)))])    # (eq. 58)
+        if lx >= 0:
+            q_mag = np.array([np.sqrt(Gamma+lx*np.sqrt(Gamma))/np.sqrt(2*Gamma), 0.0, 0.0, ly/np.sqrt(2*(Gamma+lx*np.sqrt(Gamma)))])    # (eq. 58)
+        else:   # Same quaternion, written without the 0/0 of (eq. 58) when the field points exactly opposite
+            sign_ly = 1.0 if ly >= 0 else -1.0
+            q_mag = np.array([abs(ly)/np.sqrt(2*(Gamma-lx*np.sqrt(Gamma))), 0.0, 0.0, sign_ly*np.sqrt(Gamma-lx*np.sqrt(Gamma))/np.sqrt(2*Gamma)])
         q_mag = slerp_I(q_mag, self.beta, self.threshold)
         # Generalized Quaternion
         q = q_prime.product(q_mag)                          # (eq. 59)
